@@ -66,7 +66,9 @@ def run(tier):
                 u, mode = gen_input(t, back)
                 if not u:
                     continue
-                cap = rng.choice([len(u), 2 * len(u) + 3, 32 * len(u) + 256, 32 * len(u) + 256])
+                # (a capacity that ends somewhere inside the text on a third of the groups: the paths that back off to
+                # the last word boundary depend on where exactly the output fills up — seeded change C10-C)
+                cap = rng.choice([len(u), 2 * len(u) + 3, 32 * len(u) + 256, 32 * len(u) + 256, rng.randint(1, len(u)), rng.randint(1, len(u))])
                 curs = sorted(set([0, len(u) - 1] + [rng.randint(0, len(u) - 1) for _ in range(4)]))
                 pats = [(0, 0), (1, 0), (2, 0), (4, 0), (8, 0)] + [(16, c) for c in curs]
                 grp = []
@@ -79,7 +81,8 @@ def run(tier):
                         if am & 1:
                             tt[7] = common.wide([0] * len(u))
                         if am & 2:
-                            tt[8] = common.hexbytes(b"*" * (len(u) + 1))
+                            # digits in the spacing array are copied to the output side; they are not to change the text
+                            tt[8] = common.hexbytes(bytes(rng.choice(b"*0123 ") for _ in range(len(u) + 1)))
                         grp.append(" ".join(tt))
                 ops.append(grp)
         c = common.Case("c10t-%d" % ti, ["HOOK trace 1"], [o for g in ops for o in g], {"table": t, "groups": [len(g) for g in ops]})
